@@ -325,6 +325,25 @@ def rule_cfg_idempotent(ctx: Ctx) -> int:
     return n
 
 
+
+def rule_aliased_init(ctx: Ctx) -> int:
+    """`a = b = <expr>` binds both targets to ONE object: harmless for immutable constants, an aliasing bug for anything
+    that is filled in place later (datasets, arrays, lists, dicts)."""
+    tree = ctx.tree
+    pos = ast.parse("def f(self):\n    self.a = self.b = xr.Dataset()\n").body[0]
+    if not any(isinstance(n, ast.Assign) and len(n.targets) > 1 and not isinstance(n.value, ast.Constant) for n in ast.walk(pos)):
+        raise AnalysisError("C18.ALIASED-INIT: positive example no longer recognised")
+    n = 0
+    for rel in tree.py_files("pandora"):
+        for q, fn in sorted(tree.funcs(rel).items()):
+            n += 1
+            for st in walk_no_nested(fn):
+                if isinstance(st, ast.Assign) and len(st.targets) > 1:
+                    v = st.value
+                    immut = isinstance(v, ast.Constant) or (isinstance(v, ast.UnaryOp) and isinstance(v.operand, ast.Constant)) or (dotted(v) or "") in ("np.nan", "np.inf", "None", "True", "False")
+                    ctx.ob("C18.ALIASED-INIT", rel, st, f"{q}: `{src(st)[:90]}` binds {len(st.targets)} targets to one {'immutable constant' if immut else 'object'}", immut, expected="one constructor call per target", detail="the targets denote the same mutable object: what one step stores in the first shows up in the second (e.g. left products in the right dataset), across steps and runs")
+    return n
+
 def run(ctx: Ctx) -> None:
     tree = ctx.tree
     n = rule_prange(ctx, "C18.PRANGE")
@@ -345,6 +364,7 @@ def run(ctx: Ctx) -> None:
     from ..rules_par import rule_ieee
 
     ctx.floor("C18.IEEE", rule_ieee(ctx, "C18.IEEE"), 12)
+    ctx.floor("C18.ALIASED-INIT(functions)", rule_aliased_init(ctx), 200)
     for key in (
         "pandora/aggregation/cbca.py::CrossBasedCostAggregation.cost_volume_aggregation",
         "pandora/matching_cost/sad_ssd.py::SadSsd.compute_cost_volume",
@@ -392,6 +412,7 @@ SPEC = PropSpec(
 RISK = "pandora/cost_volume_confidence/risk.py"
 AMB = "pandora/cost_volume_confidence/ambiguity.py"
 MUTANTS = [
+    {"id": "left-and-right-outputs-share-one-dataset", "file": "pandora/state_machine.py", "old": "        self.left_disparity = xr.Dataset()\n        self.right_disparity = xr.Dataset()\n", "new": "        self.left_disparity = self.right_disparity = xr.Dataset()\n"},
     {"id": "indicator-through-alias-setdefault-plus-equal", "file": "pandora/state_machine.py", "old": '        cfg["pipeline"][input_step]["indicator"] = ""\n        if len(input_step.split(".")) == 2:\n            cfg["pipeline"][input_step]["indicator"] = "." + input_step.split(".")[1]\n', "new": '        step_cfg = cfg["pipeline"][input_step]\n        step_cfg.setdefault("indicator", "")\n        if len(input_step.split(".")) == 2:\n            step_cfg["indicator"] += "." + input_step.split(".")[1]\n'},
     {"id": "eq-indicator-through-alias-overwrite", "kind": "equiv", "file": "pandora/state_machine.py", "old": '        cfg["pipeline"][input_step]["indicator"] = ""\n        if len(input_step.split(".")) == 2:\n            cfg["pipeline"][input_step]["indicator"] = "." + input_step.split(".")[1]\n', "new": '        step_cfg = cfg["pipeline"][input_step]\n        step_cfg["indicator"] = ""\n        if len(input_step.split(".")) == 2:\n            step_cfg["indicator"] = "." + input_step.split(".")[1]\n'},
     {"id": "kernel-compiled-with-fastmath", "file": "pandora/cost_volume_confidence/ambiguity.py", "old": '    @njit(\n        "f4[:, :](f4[:, :, :], f4, f4, f4)",\n', "new": '    @njit(\n        "f4[:, :](f4[:, :, :], f4, f4, f4)",\n        fastmath=True,\n'},
